@@ -921,4 +921,5 @@ func byteOps(c *hx.Ctx) {
 	secOps(c)
 	indOps(c)
 	mutatedFiles(c)
+	boundOps(c)
 }
